@@ -50,7 +50,7 @@ def tfy(children, repr_ok=False):
         st.builds(lambda s: {"k": "text", "s": s}, gen.hot_text(3)),
         st.sampled_from([{"k": "html", "s": "<i>h</i>"}, DEPS[0], DEPS[3], DEPS[4]]),
     )
-    variant = st.just(None) if repr_ok else st.sampled_from([None, None, None, "stored", "strsub", "iter"])
+    variant = st.just(None) if repr_ok else st.sampled_from([None, None, None, "stored", "strsub", "iter", "flaky", "flex"])
     return st.builds(lambda r, rp, v: {"k": "tfy", "res": r, "repr": rp, "variant": v}, res, st.booleans() if repr_ok else st.just(False), variant)
 
 
@@ -118,11 +118,29 @@ def collect_deps(objs):
 def body_expand(case, note):
     import htmltools as h
 
+    from hv import build as B
+
     roots = case["roots"]
     exp = expand(roots)
+    B.FLAKY_SEEN.clear()
+    if case.get("prior"):
+        # history: objects of the harness's self-rendering class *without* tagify() were rendered earlier in this process
+        from hv.build import Repr
+
+        h.TagList(Repr("<u>p</u>"), h.Tag("div", Repr("<u>q</u>"), "x")).render()
+        h.HTMLDocument(h.Tag("p", Repr("<u>r</u>"))).render()
     real = h.TagList(*[build(r) for r in roots])
     ref = h.TagList(*[build(r) for r in exp])
-    r = real.render()
+    # history: a tagify() of user code raised during earlier renderings of the very same objects (each flaky
+    # component fails once); the rendering that finally succeeds must be the right one
+    failed = 0
+    while True:
+        try:
+            r = real.render()
+            break
+        except B.FlakyError:
+            failed += 1
+            check(failed <= 200, "harness: flaky components keep failing")
     want = ref.get_html_string()
     check(r["html"] == want, "TagList.render()['html'] differs from rendering the expanded tree", want, r["html"])
     res = D.resolve(collect_deps(list(ref)), name=lambda d: d.name, version=lambda d: str(d.version))
@@ -166,7 +184,7 @@ def body_expand(case, note):
         late.append(build(x))
     check(late.render(lib_prefix=case["lib"])["html"] == d2["html"], "HTMLDocument with content appended later differs")
     # a <head> supplied by a tagifiable object below a lone <html>
-    if roots[0]["k"] == "tfy" and roots[0]["res"]["k"] == "tag" and not roots[0].get("repr"):
+    if roots[0]["k"] == "tfy" and roots[0]["res"]["k"] == "tag" and not roots[0].get("repr") and roots[0].get("variant") != "flaky":
         head_tfy = dict(roots[0], res=dict(roots[0]["res"], name="head", ws=True))
         mk = lambda hd, rest: h.HTMLDocument(h.Tag("html", build(hd), h.Tag("body", *[build(x) for x in rest])))
         dd = mk(head_tfy, roots[1:])
@@ -177,7 +195,8 @@ def body_expand(case, note):
         check(p2["html"] == p1["html"], "second rendering of a document whose <head> comes from a tagifiable object differs", p1["html"], p2["html"])
     s = stats(roots)
     variants = {n.get("variant") for n in _all(roots) if n["k"] == "tfy"}
-    note(s["tfy"] >= 2 and (s["multi"] or s["nested"]), *["variant:" + v for v in sorted(x for x in variants if x)], "empty-expansion-adjacent" if s["empty-adjacent"] else "", "nested-expansion" if s["nested"] else "", "no-tfy" if s["tfy"] == 0 else "")
+    note(s["tfy"] >= 2 and (s["multi"] or s["nested"]), *["variant:" + v for v in sorted(x for x in variants if x)], "empty-expansion-adjacent" if s["empty-adjacent"] else "", "nested-expansion" if s["nested"] else "", "no-tfy" if s["tfy"] == 0 else "",
+         "earlier-rendering-raised" if failed else "", "prior-plain-instances+flex" if case.get("prior") and "flex" in variants else "")
 
 
 def has_plain_tfy(nodes):
@@ -242,11 +261,11 @@ CLAUSES = [
     Clause(
         "expand",
         body_expand,
-        strategy=lambda: st.fixed_dictionaries({"roots": forest(False), "lib": st.sampled_from(["lib", None])}),
+        strategy=lambda: st.fixed_dictionaries({"roots": forest(False), "lib": st.sampled_from(["lib", None]), "prior": st.booleans()}),
         quick=700,
         thorough=10000,
         shards_quick=4,
-        required=("empty-expansion-adjacent", "nested-expansion", "variant:stored", "variant:strsub", "variant:iter"),
+        required=("empty-expansion-adjacent", "nested-expansion", "variant:stored", "variant:strsub", "variant:iter", "variant:flaky", "variant:flex", "earlier-rendering-raised", "prior-plain-instances+flex"),
         rule="see RULE",
     ),
     Clause(
